@@ -487,7 +487,8 @@ def x_ctor(p):
     from fractions import Fraction
 
     rt = robotools()
-    one = Fraction(1)
+    # all volumes and limits of the case are multiples of this unit (microlitres); tiny units reach volumes far below 1e-8
+    one = Fraction(*p.get("scale", [1, 1]))
     kind = p["kind"]
     rows, cols, vrows = p["rows"], p["cols"], p["vrows"]
     init = p["init"]
@@ -495,13 +496,18 @@ def x_ctor(p):
     vals, nans = init.get("vals", []), init.get("nan", [])
 
     def val(i):
-        return _vol_value(vals[i], nans[i] if i < len(nans) else False)
+        v = _vol_value(vals[i], nans[i] if i < len(nans) else False)
+        return v if one == 1 or v != v else float(Fraction(vals[i]) * one)
+
+    def lim(sp):
+        v = _lim_value(sp)
+        return v if one == 1 or v is None or v != v else float(Fraction(sp["v"]) * one)
 
     if form == "none":
         iv = None
     elif form == "scalar":
         iv = val(0)
-        if init.get("asint") and not (nans and nans[0]):
+        if init.get("asint") and not (nans and nans[0]) and one == 1:
             iv = int(vals[0])
     elif form in ("flat", "percol"):
         iv = [val(i) for i in range(len(vals))]
@@ -530,8 +536,8 @@ def x_ctor(p):
                 elif names["kind"] == "list" and names.get("present") == "ndarray":
                     cnames = np.array(cnames, dtype=object)
                 kw["column_names"] = cnames
-            obj = rt.Trough(p.get("name", "L"), _size_value(vrows), _size_value(cols), min_volume=_lim_value(p["minv"]),
-                            max_volume=_lim_value(p["maxv"]), **kw)
+            obj = rt.Trough(p.get("name", "L"), _size_value(vrows), _size_value(cols), min_volume=lim(p["minv"]),
+                            max_volume=lim(p["maxv"]), **kw)
         else:
             kw = {}
             if iv is not None:
@@ -543,12 +549,12 @@ def x_ctor(p):
                 if p.get("reuse_names"):
                     # the caller uses one dict of names for several labware: an earlier constructor call must not leave traces in it
                     try:
-                        rt.Labware("earlier", _size_value(rows), _size_value(cols), min_volume=_lim_value(p["minv"]),
-                                   max_volume=_lim_value(p["maxv"]), **kw)
+                        rt.Labware("earlier", _size_value(rows), _size_value(cols), min_volume=lim(p["minv"]),
+                                   max_volume=lim(p["maxv"]), **kw)
                     except Exception:  # noqa
                         pass
-            obj = rt.Labware(p.get("name", "L"), _size_value(rows), _size_value(cols), min_volume=_lim_value(p["minv"]),
-                             max_volume=_lim_value(p["maxv"]), **kw)
+            obj = rt.Labware(p.get("name", "L"), _size_value(rows), _size_value(cols), min_volume=lim(p["minv"]),
+                             max_volume=lim(p["maxv"]), **kw)
     except Exception as e:  # noqa
         exc = e
     obs = {"wells": [], "idx": [], "nidx": 0, "volshape": [0, 0], "vol": [], "hn": 0, "last": {"h": False, "l": "", "s": [], "base": False, "num": -1},
